@@ -194,6 +194,46 @@ def copy_tree(src: pathlib.Path, dst: pathlib.Path):
     return dst
 
 
+def snapshot_tree(root: pathlib.Path, limit=400_000):
+    """{relative path: text} of a small input tree (stored in replay files so that a replay needs nothing else)."""
+    out, size = {}, 0
+    for p in sorted(root.rglob("*")):
+        if p.is_file():
+            t = p.read_text(encoding="utf-8", errors="replace")
+            size += len(t)
+            if size > limit:
+                return None
+            out[p.relative_to(root).as_posix()] = t
+    return out
+
+
+def restore_tree(snap: dict, dst: pathlib.Path):
+    for rel, text in snap.items():
+        f = dst / rel
+        f.parent.mkdir(parents=True, exist_ok=True)
+        f.write_text(text, encoding="utf-8")
+    return dst
+
+
+def snapshot_input(root, lookups):
+    r = snapshot_tree(pathlib.Path(root))
+    ls = [(pathlib.Path(l).name, snapshot_tree(pathlib.Path(l))) for l in lookups]
+    if r is None or any(x[1] is None for x in ls):
+        return None
+    return {"root": pathlib.Path(root).name, "files": r, "lookups": [{"name": n, "files": f} for n, f in ls]}
+
+
+def restore_input(snap, dst: pathlib.Path):
+    """-> (root dir, [lookup dirs]) below dst."""
+    root = restore_tree(snap["files"], dst / snap["root"])
+    (dst / snap["root"]).mkdir(parents=True, exist_ok=True)
+    lks = []
+    for l in snap["lookups"]:
+        (dst / l["name"]).mkdir(parents=True, exist_ok=True)
+        lks.append(restore_tree(l["files"], dst / l["name"]))
+    return root, lks
+
+
 def file_kind(lang: str, rel: str) -> str:
     """Coarse kind of an output file (part of the key of a finding)."""
     name = rel.rsplit("/", 1)[-1]
